@@ -215,3 +215,35 @@ Proof.
   intros r c rad y Hr Hc Hrad Hy. split; [apply hemi_trisR_eq; lia|].
   split; [apply hemi_dome_faces_outward; assumption|apply hemi_base_faces_down; assumption].
 Qed.
+
+(* ---- the same volume as a stack of frusta on the base plane: rows-2 frusta between consecutive rings
+        (rho_j = rad * sin (alpha j), y_j = rad * cos (alpha j), y_0 = 0) and the apex pyramid ---- *)
+Lemma rsum_telescope_up : forall (g : N -> R) n, rsum (fun l => g (l + 1)%N - g l) (nseq n) = g n - g 0%N.
+Proof.
+  intros g n. pose proof (rsum_telescope (fun l => - g l) n) as T. cbv beta in T.
+  rewrite (rsum_ext_in _ (fun l => - g l - - g (l + 1)%N)) by (intros; ring). rewrite T. ring.
+Qed.
+
+Theorem hemi_volume_frusta : forall r c rad, (2 <= r)%N -> (1 <= c)%N ->
+  rvol6 (hemi_trisR r c rad) / 6 =
+    rsum (fun j => (rad * cos (alpha r (j + 1)) - rad * cos (alpha r j)) / 3 * (NR c / 2 * sin (2 * PI / NR c)) *
+                   ((rad * sin (alpha r j)) * (rad * sin (alpha r j)) + (rad * sin (alpha r (j + 1))) * (rad * sin (alpha r (j + 1)))
+                    + (rad * sin (alpha r j)) * (rad * sin (alpha r (j + 1))))) (nseq (r - 2))
+    + (rad - rad * cos (alpha r (r - 2))) / 3 * (NR c / 2 * sin (2 * PI / NR c))
+      * ((rad * sin (alpha r (r - 2))) * (rad * sin (alpha r (r - 2)))).
+Proof.
+  intros r c rad Hr Hc. assert (Hr1 : (1 <= r)%N) by lia. rewrite hemi_volume_is_sum by assumption.
+  set (S := fun l => sin (alpha r l)). set (C := fun l => cos (alpha r l)). set (D := sin (PI / (2 * NR r))).
+  set (K := NR c * (rad * rad * rad * sin (2 * PI / NR c))).
+  assert (C0 : C 0%N = 0).
+  { unfold C, alpha. change (NR 0) with 0. pose proof (NR_pos r Hr1).
+    replace (- PI * 0 / NR r / 2 + PI / 2) with (PI / 2) by (field; lra). apply cos_PI2. }
+  assert (E : rsum (fun j => (rad * C (j + 1)%N - rad * C j) / 3 * (NR c / 2 * sin (2 * PI / NR c)) *
+                   ((rad * S j) * (rad * S j) + (rad * S (j + 1)%N) * (rad * S (j + 1)%N) + (rad * S j) * (rad * S (j + 1)%N)))
+                  (nseq (r - 2))
+            = K / 6 * (D * rsum (fun j => S j + S (j + 1)%N) (nseq (r - 2)) + (C (r - 2)%N * (S (r - 2)%N * S (r - 2)%N) - 0))).
+  { rewrite (rsum_ext_in _ (fun j => K / 6 * (D * (S j + S (j + 1)%N) + (C (j + 1)%N * (S (j + 1)%N * S (j + 1)%N) - C j * (S j * S j))))).
+    2:{ intros j _. pose proof (turn_alpha r j Hr1) as T. fold D in T. unfold S, C, K. rewrite <- T. field. }
+    rewrite rsum_scal, rsum_plus, rsum_scal, (rsum_telescope_up (fun l => C l * (S l * S l))). rewrite C0. f_equal. ring. }
+  unfold S, C in E. rewrite E. fold (S (r - 2)%N) (C (r - 2)%N). unfold K. field.
+Qed.
